@@ -36,7 +36,7 @@ MODELS = ["OptiVerif.Model.Eye", "OptiVerif.Model.NumList", "OptiVerif.Model.Fib
 RULE = ("cases = two-level NRZ waveforms (random / PRBS7 patterns of 64..256 slots, one PRBS13 record of 8191 slots (longer than the 4096-slot window, carried as electrical_signal(signal, noise)), 4-5 % / 95-96 % mark density with >= 16 marks at sigma = 5 %, both symbols present, sps in {8,16,32}, "
         "sps_resamp=128 (a few without resampling, tie only), levels a<b with b-a log-uniform in [1e-3,100] V and offsets "
         "{0,-d/2,-3d,+2d} plus pedestals |a|/(b-a) in {30,100,1000} of both signs, noise sigma in [0.5%,5%] of b-a, Bessel LPF at 0.7..1.0 R) each run twice (a third of the even-length ones as ONE electrical_signal(signal, noise) object evaluated three times with the twin built from that object's arrays afterwards, operands monitored for modification): as is and scaled by "
-        "alpha in [1e-3,1e3] (log-uniform) with an offset beta (up to 1000 swings, and 1e5..2e7 swings for a few), same numpy seed; degenerate inputs (constant, single level) for "
+        "alpha in [1e-3,1e3] (log-uniform) with an offset beta (up to 1000 swings, and 1e5..2e7 swings for a few), same numpy seed; call histories (earlier calls in the same process on grids of the same total size but other samples per slot, with and without sps_resamp); a positional twin GET_EYE(input, nslots, sps_resamp) for a quarter of the short records; degenerate inputs (constant, single level) for "
         "the error branches.  non-trivial = both runs returned finite estimates; distinct by all parameters")
 PARTIAL = ["accuracy clauses (mu within 8 % of b-a, s in [sigma/2, 2 sigma + 3 %], mu0<threshold<mu1 strictly, t_right-t_left within "
            "10 % of 1, t_opt midway within one grid step): oracle under fixed seeds, statistical",
@@ -109,6 +109,16 @@ def gen_cases(rng, tier):
         cases.append({"kind": "eye", "sps": sps, "nsl": nsl, "pattern": pat, "split": pat == "prbs13", "a": rng.choice([0.0, -d / 2, 2 * d]), "d": d,
                       "sigma": rng.uniform(0.01, 0.04), "bwf": rng.uniform(0.7, 1.0), "alpha": 10 ** rng.uniform(-3, 3), "beta": 0.0,
                       "spsr": 128, "seed": rng.getrandbits(31)})
+    # call histories: grids of the same total size, different samples per slot (8192 = 256 slots x 32 = 64 slots x 128 = 128 x 64 ...)
+    hist = [(32, 64, [{"nsl": 256, "spsr": None}]), (16, 64, [{"nsl": 512, "spsr": None}, {"nsl": 128, "spsr": 64}]),
+            (8, 128, [{"nsl": 64, "spsr": 256}, {"nsl": 256, "spsr": 64}]), (32, 128, [{"nsl": 512, "spsr": None}])]
+    if tier != "quick":
+        hist = hist * 3 + [(8, 64, [{"nsl": 1024, "spsr": None}])]
+    for sps, nsl, pre in hist:
+        d = 10 ** rng.uniform(-3, 2)
+        cases.append({"kind": "eye", "sps": sps, "nsl": nsl, "pattern": rng.choice(["random", "prbs"]), "a": rng.choice([0.0, -d / 2, 2 * d]), "d": d,
+                      "sigma": rng.uniform(0.01, 0.05), "bwf": rng.uniform(0.7, 1.0), "alpha": 10 ** rng.uniform(-3, 3), "beta": 0.0,
+                      "spsr": 128, "seed": rng.getrandbits(31), "prelude": pre, "split": False})
     # no resampling / other resampling factors: correspondence only (outside the statement's quantifier)
     for spsr in (None, None, 64, 256):
         cases.append({"kind": "eye", "sps": rng.choice([8, 16, 32]), "nsl": 96, "pattern": "random", "a": 0.0, "d": 1.0, "sigma": 0.02,
@@ -265,7 +275,16 @@ def _snap(obj):
     return (obj.signal.tobytes(), None if obj.noise is None else obj.noise.tobytes(), obj.signal.dtype.str, obj.signal.shape)
 
 
-def _one_run(dev, x, case, obj=None, light=False):
+# documented positional order of GET_EYE (signature at /repo HEAD 8caea4c), recorded here — NOT read from the code under test
+GET_EYE_ORDER = ["input", "nslots", "sps_resamp"]
+GET_EYE_NSLOTS_DEFAULT = 4096
+
+
+def _has_twin(case):
+    return case["nsl"] <= 512 and case["seed"] % 4 == 0 and not _is_split(case)
+
+
+def _one_run(dev, x, case, obj=None, light=False, positional=False):
     """one GET_EYE call on `obj` (default: a fresh electrical_signal(x)); `light`: keep only the returned fields"""
     from opticomlib.typing import electrical_signal
     try:
@@ -282,7 +301,11 @@ def _one_run(dev, x, case, obj=None, light=False):
         try:
             with threadpool_limits(limits=1):
                 with time_limit(60):
-                    e = dev.GET_EYE(obj, sps_resamp=case["spsr"])
+                    if positional:
+                        args = {"input": obj, "nslots": GET_EYE_NSLOTS_DEFAULT, "sps_resamp": case["spsr"]}
+                        e = dev.GET_EYE(*[args[k] for k in GET_EYE_ORDER])
+                    else:
+                        e = dev.GET_EYE(obj, sps_resamp=case["spsr"])
         except Timeout:
             raise
         except Exception as ex:  # noqa
@@ -330,6 +353,14 @@ def run_impl(case):
             warnings.simplefilter("ignore")
             gv.clean()
             gv(sps=case["sps"], R=R_BIT)
+            # call history: earlier evaluations in the same process whose grids have the same TOTAL number of samples as the main
+            # one but another number of samples per slot (with / without sps_resamp); they must leave no trace
+            res["prelude"] = []
+            for pj, pre in enumerate(case.get("prelude", [])):
+                pc = dict(case, nsl=pre["nsl"], spsr=pre["spsr"], pattern="random", seed=case["seed"] + 1 + pj)
+                pc.pop("prelude", None)
+                out = _one_run(dev, _waveform(pc, dev), pc, light=True)
+                res["prelude"].append({"status": out.get("status"), "err": out.get("err"), "detail": out.get("detail")})
             if _is_split(case):
                 from opticomlib.typing import electrical_signal
                 sig, nz = _waveform(case, dev, parts=True)
@@ -345,6 +376,8 @@ def run_impl(case):
                 x = _waveform(case, dev)
                 res["len"] = int(x.size)
                 res["run1"] = _one_run(dev, x, case)
+                if _has_twin(case):
+                    res["positional"] = _one_run(dev, x, case, light=True, positional=True)
                 res["run2"] = _one_run(dev, case["alpha"] * x + case["beta"], case)
             res["status"] = "ok"
     except Timeout as e:
@@ -564,6 +597,16 @@ def oracle(case, res):
             v.append(("C17:t_opt", f"{which}: t_opt {f['t_opt']} not midway between {f['t_left']} and {f['t_right']} {tag}"))
         if not (run["i_is_int"] and 0 <= f["i"] < case["sps"]):
             v.append(("C17:index", f"{which}: i={f['i']} outside [0,{case['sps']}) {tag}"))
+    for j, pre in enumerate(res.get("prelude", [])):
+        if pre.get("status") != "ok":
+            v.append(("C17:raises", f"earlier call {j} of the history ({case['prelude'][j]}) raised {pre.get('err')} {pre.get('detail')} {tag}"))
+    pt = res.get("positional")
+    if pt is not None and res["run1"].get("status") == "ok":
+        f1 = {k: _num(x) for k, x in res["run1"]["fields"].items()}
+        fp = {k: _num(x) for k, x in pt["fields"].items()} if pt.get("status") == "ok" else None
+        if fp is None or any(not _same(f1[k], fp[k], 0.0) for k in FIELDS):
+            v.append(("C17:positional:GET_EYE", f"GET_EYE(input, {GET_EYE_NSLOTS_DEFAULT}, {case['spsr']}) with the arguments passed positionally in the "
+                                               f"documented order {GET_EYE_ORDER} differs from the keyword call: {pt.get('err') or [k for k in FIELDS if not _same(f1[k], fp[k], 0.0)]} {tag}"))
     for which in ["run1", "run2"] + [f"repeat[{j}]" for j in range(len(res.get("repeat", [])))]:
         run = res["repeat"][int(which[7])] if which.startswith("repeat") else res[which]
         if run.get("status") == "ok" and not run["operands_unchanged"]:
@@ -603,7 +646,8 @@ def features(case, res):
          "d<1e-2" if case["d"] < 1e-2 else "d<1" if case["d"] < 1 else "d<10" if case["d"] < 10 else "d>=10",
          "alpha<1e-1" if case["alpha"] < 0.1 else "alpha<10" if case["alpha"] < 10 else "alpha>=10",
          "offset<0" if case["a"] < 0 else "offset>=0", "pedestal>=30x" if max(abs(case["a"]), abs(case["beta"]) / case["alpha"]) >= 29.9 * case["d"] else "pedestal<30x", "sigma<2%" if case["sigma"] < 0.02 else "sigma>=2%",
-         "odd-tail" if (case["nsl"] % 2) else "even", "object(signal,noise)x3" if _is_split(case) else "fresh-object"]
+         "odd-tail" if (case["nsl"] % 2) else "even", "object(signal,noise)x3" if _is_split(case) else "fresh-object",
+         "history" if case.get("prelude") else "no-history", "positional-twin" if res.get("positional") else "no-twin"]
     for k in ("run1", "run2"):
         r = res.get(k, {})
         if r.get("status") == "ok":
